@@ -252,7 +252,7 @@ def run_check(prop, tier, verif_seed, n_runs=None, wall=None, procs=None,
         procs = int(os.environ.get('DST_PROCS', min(16, os.cpu_count() or 1)))
     deadline = t0 + wall
     chunk = max(1, min(50, n_runs // (procs * 4) or 1))
-    tasks = [(prop, verif_seed, tier, s, min(n_runs, s + chunk), deadline, 3)
+    tasks = [(prop, verif_seed, tier, s, min(n_runs, s + chunk), deadline, 25)
              for s in range(0, n_runs, chunk)]
     agg = {'runs': 0, 'sigs': {}, 'triples': {}, 'probes': {}, 'fired': {},
            'sim_time': 0.0, 'sched_steps': 0, 'failures': [],
